@@ -8,6 +8,7 @@
  * No LIFO/FIFO issues - items are processed in the order they're created.
  */
 
+#include <limits.h>
 #include "nanolang.h"
 #include "module_builder.h"
 #include <stdarg.h>
@@ -681,7 +682,12 @@ static void build_expr(WorkList *list, ASTNode *expr, Environment *env) {
     
     switch (expr->type) {
         case AST_NUMBER:
-            emit_formatted(list, "%lldLL", expr->as.number);
+            if (expr->as.number == LLONG_MIN) {
+                /* -9223372036854775808LL is not a C literal (the digits overflow before the sign applies) */
+                emit_literal(list, "(-9223372036854775807LL - 1LL)");
+            } else {
+                emit_formatted(list, "%lldLL", expr->as.number);
+            }
             break;
             
         case AST_FLOAT:
